@@ -865,6 +865,8 @@ func secretConfigDecoderHook(from, to reflect.Type, data interface{}) (interface
 // keys need to be converted to strings for jsonschema
 func convertToStringKeysRecursive(value interface{}, keyPrefix string) (interface{}, error) {
 	if mapping, ok := value.(map[string]interface{}); ok {
+		// a pre-parsed ConfigFile.Config belongs to the caller and the pipeline works in place: convert into a new tree
+		dict := make(map[string]interface{}, len(mapping))
 		for key, entry := range mapping {
 			var newKeyPrefix string
 			if keyPrefix == "" {
@@ -876,9 +878,9 @@ func convertToStringKeysRecursive(value interface{}, keyPrefix string) (interfac
 			if err != nil {
 				return nil, err
 			}
-			mapping[key] = convertedEntry
+			dict[key] = convertedEntry
 		}
-		return mapping, nil
+		return dict, nil
 	}
 	if mapping, ok := value.(map[interface{}]interface{}); ok {
 		dict := make(map[string]interface{})
